@@ -276,7 +276,7 @@ struct Sub {
     {
         cs.name = name;
         cs.n = n;
-        cs.counter_names = {"judged:" + name, "documented_refusals:" + name, "outside_domain_not_called:" + name, "method_gave_up_allowed:" + name};
+        cs.counter_names = {"judged:" + name, "documented_refusals:" + name, "outside_domain_not_called:" + name, "method_gave_up_allowed:" + name, "rand_draws_intercepted:" + name};
         cs.hang_s = 60;
     }
     void go()
@@ -687,6 +687,7 @@ int main(int argc, char **argv)
                 return;
             }
             g_rand_value = SEEDS[v[1]];
+            unsigned long rc0 = g_rand_calls;
             RCP<const Integer> f;
             std::string err;
             int rv = -9;
@@ -699,6 +700,7 @@ int main(int argc, char **argv)
                 },
                 err);
             c.eval();
+            c.count(4, g_rand_calls - rc0);
             c.outcome(ran ? "r" + S(rv) : "throw");
             ll minn = meth ? 5 : 4; // documented: rho requires n > 4, p-1 requires n > 3
             if (n < minn) {
@@ -1122,11 +1124,13 @@ int main(int argc, char **argv)
             auto v = mx.at(i);
             ll p = ps[v[0]], a = v[2];
             g_rand_value = SEEDS[v[1]];
+            unsigned long rc0 = g_rand_calls;
             RCP<const Integer> r;
             bool has = false;
             std::string err;
             bool ran = call([&] { has = nthroot_mod(outArg(r), Int(a), Int(2), Int(p)); }, err);
             c.eval();
+            c.count(4, g_rand_calls - rc0); // > 0 only when _sqrt_mod_tonelli_shanks was entered
             JUDGED;
             c.nontrivial();
             int leg = ref_legendre(a, p);
